@@ -50,13 +50,17 @@ Definition is_argsep (c : ascii) : bool := ascii_eqb c c_comma || ascii_eqb c c_
 Definition unprotect (s : str) : str :=
   map_char c_03 c_comma (map_char c_02 c_dq (map_char c_01 c_sp (strip_dq s))).
 
-Definition protect (s : str) : str :=
+(* [fx] = false: the pinned code, with the special case for a quoted single blank (which
+   also fires across two quoted arguments when the first ends in a comma);
+   [fx] = true: the repaired code, where that pass is gone (the next pass covers it) *)
+Definition protect (fx : bool) (s : str) : str :=
+  let s1 := protect_bsq (strip_dq s) in
   resub (quoted_match c_comma c_03)
     (resub (quoted_match c_sp c_01)
-       (resub csq_match (protect_bsq (strip_dq s)))).
+       (if fx then s1 else resub csq_match s1)).
 
-Definition split_args (s : str) : list str :=
-  map unprotect (split_set is_argsep (protect s)).
+Definition split_args (fx : bool) (s : str) : list str :=
+  map unprotect (split_set is_argsep (protect fx s)).
 
 (* ---------------------------------------------------------------- actions *)
 
@@ -154,10 +158,10 @@ Definition process_cmd (top : str) (cmd : str) (args : list str) : cmdres :=
   else CSkip.
 
 (* a line that matched the command pattern: name as written, text between the parentheses *)
-Definition mk_action (top : str) (name argstr : str) : cmdres :=
+Definition mk_action (fx : bool) (top : str) (name argstr : str) : cmdres :=
   match normalise_cmd name with
   | None => CSkip
-  | Some cmd => process_cmd top cmd (split_args argstr)
+  | Some cmd => process_cmd top cmd (split_args fx argstr)
   end.
 
 (* a line that matched neither pattern: cmd = line; args = [] *)
